@@ -153,6 +153,7 @@ type c17Scenario struct {
 	prevWant []map[string]c17Held // expected views before the last event
 	diverged bool
 	v1Label  uint32
+	pol      bool
 }
 
 func init() {
@@ -165,6 +166,10 @@ func init() {
 				sc.deferral = true
 			case "full":
 				sc.full = true
+			case "pol":
+				// sharp driver: a global import policy with a modification action (the Loc-RIB then holds
+				// clones of the Adj-RIB-In paths), soft reset (in) of the PE as an event, small alphabet
+				sc.pol = true
 			default:
 				panic("vrf: unknown arg " + kv)
 			}
@@ -174,6 +179,17 @@ func init() {
 }
 
 func (sc *c17Scenario) ForceDrain() bool { return true }
+
+func (sc *c17Scenario) polEnabled() []simEvent {
+	ev := []simEvent{{Op: "rtcann", A: 1, B: 0}, {Op: "vpnann", A: 1, B: 0}, {Op: "vpnann", A: 1, B: 2}, {Op: "softin"}}
+	if sc.memb["1|0"] {
+		ev = append(ev, simEvent{Op: "rtcwd", A: 1, B: 0})
+	}
+	if _, ok := sc.peRoutes[1]; ok {
+		ev = append(ev, simEvent{Op: "vpnwd", A: 1})
+	}
+	return ev
+}
 
 const (
 	c17Pe  = 0
@@ -253,6 +269,9 @@ func (sc *c17Scenario) Setup(w *simWorld) {
 	}
 	if v, ok := w.s.globalRib.GetVrf("v1"); ok {
 		sc.v1Label = v.MplsLabel
+	}
+	if sc.pol {
+		simSetPolicies(w, 5, 0) // import: add community 65000:99, accept
 	}
 	sc.fold(w)
 	sc.prevWant = sc.expectAll()
@@ -363,6 +382,9 @@ func (sc *c17Scenario) Enabled(w *simWorld) []simEvent {
 	if sc.diverged {
 		// the reference and the daemon are out of step: one root cause gives one minimal history
 		return nil
+	}
+	if sc.pol {
+		return sc.polEnabled()
 	}
 	var ev []simEvent
 	type ms struct{ rt, as int }
@@ -518,6 +540,9 @@ func (sc *c17Scenario) Apply(w *simWorld, e simEvent) {
 	case "cewd":
 		w.bots[c17Ce].sendMsg(sc.ceUpdate(w, true))
 		sc.ceRoute = false
+	case "softin":
+		// re-evaluates what the PE sent under the (unchanged) import policy: no expected view changes
+		w.must(w.s.ResetPeer(context.Background(), &api.ResetPeerRequest{Address: w.bots[c17Pe].addr().String(), Soft: true, Direction: api.ResetPeerRequest_DIRECTION_IN}))
 	default:
 		panic("vrf: unknown event " + e.Op)
 	}
@@ -962,10 +987,11 @@ func TestVerif_C17_Sim(t *testing.T) {
 	}
 	// level sizes (measured): trimmed alphabet 11 / 129 / 1174 / 9022 / ~75k; full alphabet 25 / ~600 / ~12k.
 	// The wall budget is only tested between levels, so the level-size cap is what bounds the cost.
-	runs := []run{{"eor", 4, 150 * time.Second, 20000}, {"d0", 3, 30 * time.Second, 20000}, {"eor;full", 2, 30 * time.Second, 20000}}
+	runs := []run{{"eor", 4, 150 * time.Second, 20000}, {"d0", 3, 30 * time.Second, 20000}, {"eor;full", 2, 30 * time.Second, 20000}, {"d0;pol", 5, 60 * time.Second, 20000}}
 	if vr.Thorough() {
-		runs = []run{{"eor", 6, 8 * time.Minute, 100000}, {"d0", 6, 2 * time.Minute, 12000}, {"eor;full", 6, 3 * time.Minute, 30000}}
+		runs = []run{{"eor", 6, 8 * time.Minute, 100000}, {"d0", 6, 2 * time.Minute, 12000}, {"eor;full", 6, 3 * time.Minute, 30000}, {"d0;pol", 8, 3 * time.Minute, 30000}}
 	}
+	r.Bounds["vrf[d0;pol].alphabet"] = "sharp driver: global import policy 'add community, accept' (Loc-RIB holds clones), events {membership RT1 announce/withdraw, PE announces route 1 with {RT1} | {RT1,RT2}, withdraws it, soft reset (in) of the PE}"
 	r.Bounds["vpn_prefixes"] = 2
 	r.Bounds["rt_sets"] = fmt.Sprint(c17RTSetNames)
 	r.Bounds["memberships"] = "RT1|RT2|default x origin AS a; RT1 x origin AS b (full alphabet: also RT2 x b, spurious withdrawals, all 5 target sets for both prefixes)"
